@@ -6,11 +6,11 @@ import NmVerif.Arr
 
   The slice machinery is C05's; here the effect of a `(None, None, -1)` slice on an axis of extent `n` is modelled
   directly as `i ↦ n-1-i` with unchanged extent (validated against the real headers by the correspondence run).
-  What IS mirrored from flip.hpp: membership of axis `i` in `axes` is decided by comparing the RAW entries with `i`
-  (`(common_t)ii == (common_t)i`, `(size_t)axes == i`): a negative entry never matches, and is silently ignored.
+  What IS mirrored from flip.hpp: membership of axis `i` in `axes` — every entry `a` is normalised NumPy-style
+  (`a < 0 ⇒ a + dim`) and compared with `i`; an entry that is still out of range matches no axis and is ignored.
 
   Stable names:
-    flipInAxis axes i   : Bool                   axes : Option (List Int), `none` = all axes
+    flipInAxis axes dim i : Bool                 axes : Option (List Int), `none` = all axes
     flipIdx    src axes : Idx → Idx
     flipView   src axes : Option IxView          (always `some`: the C++ never returns Nothing here)
 
@@ -18,18 +18,18 @@ import NmVerif.Arr
 -/
 namespace NmVerif
 
-/-- `in_axis` of `flip_slices`: raw comparison, no normalisation -/
-def flipInAxis (axes : Option (List Int)) (i : Nat) : Bool :=
+/-- `in_axis` of `flip_slices`: `normalize(a) == i` with `normalize(a) = (size_t)(a < 0 ? a + dim : a)` -/
+def flipInAxis (axes : Option (List Int)) (dim : Nat) (i : Nat) : Bool :=
   match axes with
   | none => true
-  | some ax => ax.any (fun a => a == (i : Int))
+  | some ax => ax.any (fun a => (if a < 0 then a + (dim : Int) else a) == (i : Int))
 
 /-- positions `k, k+1, …` of the index: flipped where in axes -/
-def flipGo (axes : Option (List Int)) : Nat → Shape → Idx → Idx
-  | k, n :: ns, i :: is => (if flipInAxis axes k then n - 1 - i else i) :: flipGo axes (k+1) ns is
+def flipGo (axes : Option (List Int)) (dim : Nat) : Nat → Shape → Idx → Idx
+  | k, n :: ns, i :: is => (if flipInAxis axes dim k then n - 1 - i else i) :: flipGo axes dim (k+1) ns is
   | _, _, _ => []
 
-def flipIdx (src : Shape) (axes : Option (List Int)) (d : Idx) : Idx := flipGo axes 0 src d
+def flipIdx (src : Shape) (axes : Option (List Int)) (d : Idx) : Idx := flipGo axes src.length 0 src d
 
 def flipView (src : Shape) (axes : Option (List Int)) : Option IxView :=
   some ⟨src, src, fun d => some (flipIdx src axes d)⟩
